@@ -97,7 +97,8 @@ def corrupt(rng, wire, graft_pool):
             w = _set(w, path, padded if rng.random() < 0.7 else {"$b": padded.encode().hex()})
         elif op == "as_buffer":
             hx = node["$b"] if isinstance(node, dict) else node.encode().hex()
-            w = _set(w, path, {rng.choice(["$ba", "$mv", "$mvw"]): hx})
+            # (a writable buffer only: a bytes position given a *view* answers with the text of the view's repr, which holds an address)
+            w = _set(w, path, {"$ba": hx})
         elif op == "attr_name":
             name = rng.choice(ATTR_NAMES)
             w = _set(w, path, name if rng.random() < 0.7 else {"$b": name.encode().hex()})
@@ -246,7 +247,7 @@ class C03(PropBase):
                 # binary input that is not `bytes` (a writable buffer, a view) at a position whose type is bytes:
                 # the result holds bytes objects of its own there
                 hx = rng.choice(["abc", "", "[1, 2]", "h\u00e9", "2020-01-01"]).encode().hex()
-                buf = {rng.choice(["$ba", "$mv", "$mvw", "$mvs"]): hx}
+                buf = {"$ba": hx}  # (not a view: see as_buffer)
                 bt = {"k": "bytes"}
                 t, x = rng.choice([(bt, buf), ({"k": "list", "a": bt}, {"$list": [buf, {"$b": hx}]}), ({"k": "dict", "a": [{"k": "str"}, bt]}, {"$dict": [["k", buf]]}),
                                    ({"k": "union", "sp": "optional", "a": [bt, {"k": "none"}]}, buf), ({"k": "tuple", "a": [{"k": "int"}, bt]}, {"$list": [1, buf]}),
